@@ -302,8 +302,13 @@ func TestC20Threshold(t *testing.T) {
 			return dec
 		}
 
-		// blocks h0 .. H-1
+		// blocks h0 .. H-1 (the node may be restarted between two of them: votes already stored must
+		// still count, and duplicates must still be recognised)
 		for off := 0; off < d; off++ {
+			if off > 0 && sim.U(t, "restart", 3) == 0 {
+				n.Restart()
+				sim.S.Label("C20/restart-between-votes")
+			}
 			req := sim.BlockReq{Height: h0 + uint64(off), Time: n.Time.Add(5e9), Votes: n.AllSigned()}
 			if n.WouldHalt(req) {
 				t.Skip("an earlier height halts")
